@@ -14,13 +14,21 @@ def pitch_text(step, alter, octave, natural=False):
     return s + ("#" * alter if alter > 0 else "-" * (-alter) if alter < 0 else ("n" if natural else ""))
 
 
-def fill(rng, length, triplets=True, dots=True):
-    """rhythm values filling `length` quarters exactly"""
+def fill(rng, length, triplets=True, dots=True, palette=None):
+    """rhythm values filling `length` quarters exactly.  palette "coarse+triplets" (whole to eighth, undotted, and
+    triplets) and "sixteenths" (quarter to sixteenth, undotted, no triplets) give two spines whose own grids are
+    incommensurable: neither contains the other, only their least common multiple holds both."""
     out, rem = [], length
     while rem > 0:
         opts = [(v, d) for v, d in VALUES if d <= rem and (dots or v[1] == 0)]
         trip = [(r, d) for r, d in TRIPLETS if 3 * d <= rem] if triplets else []
-        if trip and rng.random() < 0.25:
+        if palette == "coarse+triplets":
+            opts = [(v, d) for v, d in opts if v[1] == 0 and v[0] in (1, 2, 4, 8)]
+            trip = [(r, d) for r, d in TRIPLETS if 3 * d <= rem and r in (12, 6)]
+        elif palette == "sixteenths":
+            opts = [(v, d) for v, d in opts if v[1] == 0 and v[0] in (4, 8, 16, 16)]
+            trip = []
+        if trip and rng.random() < (0.5 if palette else 0.25):
             r, d = rng.choice(trip)
             out += [((r, 0), d)] * 3
             rem -= 3 * d
@@ -40,6 +48,9 @@ def make_doc(rng, chords=True, ties="notes", grace=True, meter_change=True, pick
     fifths = rng.randint(-4, 4)
     has_pickup = pickup and rng.random() < 0.3
     plain_lead = rng.random() < 0.6
+    # in a part made of several spines: which of the first two spines (1 or 2; 0: neither) keeps to whole..eighth values and
+    # triplets while the other keeps to quarter..sixteenth values, so that the part's divisions must hold both grids
+    incommensurable = rng.choice([0, 1, 2]) if same_part else 0
     change_at = rng.randrange(1, nbars) if (meter_change and nbars > 1 and rng.random() < 0.3) else None
     # bar plan: (number or None for the pickup, length, meter change before it)
     plan = []
@@ -60,7 +71,10 @@ def make_doc(rng, chords=True, ties="notes", grace=True, meter_change=True, pick
             evs = []
             # (in a part made of several spines the first spine may be the only plain one: the divisions must come from all of them)
             plain_first = same_part and plain_lead and j == 0
-            for (recip, dots), d in fill(rng, length, triplets=not plain_first, dots=not plain_first):
+            palette = None
+            if incommensurable and j < 2:
+                palette = "coarse+triplets" if j == incommensurable - 1 else "sixteenths"
+            for (recip, dots), d in fill(rng, length, triplets=not plain_first, dots=not plain_first, palette=palette):
                 kind = "rest" if rng.random() < 0.15 else ("chord" if chords and rng.random() < 0.2 else "note")
                 pitches = []
                 for _ in range(1 if kind != "chord" else rng.randint(2, 3)):
@@ -188,7 +202,7 @@ def make_doc(rng, chords=True, ties="notes", grace=True, meter_change=True, pick
     lines.append({"kind": "bar", "number": "", "toks": [dict(nul) for _ in range(nsp)]})
     text.append("\t".join(["=="] * nsp))
     text.append("\t".join(["*-"] * nsp))
-    meta = {"nspines": nsp, "split": split is not None, "same_part": same_part, "staffs": staffs, "pickup": has_pickup, "meter_change": change_at is not None, "nbars": nbars}
+    meta = {"nspines": nsp, "split": split is not None, "same_part": same_part, "incommensurable": incommensurable, "staffs": staffs, "pickup": has_pickup, "meter_change": change_at is not None, "nbars": nbars}
     return {"nspines": nsp, "lines": lines}, "\n".join(text) + "\n", meta
 
 
